@@ -1,11 +1,27 @@
 // ===== CONTRACTS: the stateless handlers (C05: no panic; C03/C12: they neither change nor reveal state) =====
 // None of them acquires the state lock (rule R1 is not applied: a use of self.state would be an extraction error),
 // so by construction they cannot read or change the shared state; the contract pins the connection frame.
+// ASSUMED stand-ins (HELP): the look-up in the static table HELP_TOPICS (`iter().find(|(t, _)| *t == subject)`; the table's content is
+// not modelled) and `content.split_terminator('\n').collect()` (the pieces are opaque)
+pub uninterp spec fn help_topic_of(subject: Seq<char>) -> Option<(&'static str, &'static str)>;
+#[verifier::external_body]
+pub fn verif_help_topic(subject: &str) -> (r: Option<&'static (&'static str, &'static str)>)
+    ensures (r is Some) == (help_topic_of(subject@) is Some), r is Some ==> *r->0 == help_topic_of(subject@)->0,
+{ unimplemented!() }
+#[verifier::external_body]
+pub fn verif_split_lines<'a>(content: &'a str) -> (r: Vec<&'a str>)
+{ unimplemented!() }
 impl MainState {
 //@fn state/conn_cmds.rs MainState::process_ping unit=simple props=C05 rules=R2
 //@spec
         ensures conn_same_but_stream(*final(conn_state), *old(conn_state)), r is Ok, // @prop C05
             final(conn_state).stream.log().len() == old(conn_state).stream.log().len() + 1, // @prop C05
+//@end
+//@fn state/conn_cmds.rs MainState::process_pong unit=simple props=C05 rules=R2
+//@spec
+        ensures conn_same_but_pong(*final(conn_state), *old(conn_state)), // @prop C05
+            // PONG answers nothing: it only hands the token of the pending ping timer over
+            final(conn_state).stream.log() == old(conn_state).stream.log(), // @prop C05
 //@end
 //@fn state/conn_cmds.rs MainState::process_authenticate unit=simple props=C05,C03 rules=R2
 //@spec
@@ -14,6 +30,11 @@ impl MainState {
                 Reply::ErrUnknownCommand421 { client: str_of(client_name_spec(old(conn_state).user_state)), command: "AUTHENTICATE" })),
 //@open
         broadcast use bridge;
+//@end
+//@fn state/srv_query_cmds.rs MainState::process_time unit=simple props=C05 rules=R2
+//@spec
+        ensures conn_same_but_stream(*final(conn_state), *old(conn_state)), r is Ok, // @prop C05
+            final(conn_state).stream.log().len() == old(conn_state).stream.log().len() + 1, // @prop C05
 //@end
 //@fn state/srv_query_cmds.rs MainState::process_version unit=simple props=C05 rules=R2
 //@spec
@@ -30,6 +51,19 @@ impl MainState {
 //@fn state/srv_query_cmds.rs MainState::process_links unit=simple props=C05 rules=R2
 //@spec
         ensures conn_same_but_stream(*final(conn_state), *old(conn_state)), r is Ok, // @prop C05
+//@end
+//@fn state/srv_query_cmds.rs MainState::process_help unit=simple props=C05 rules=R4,R2
+//@replace ~|HELP_TOPICS\.iter\(\)\.find\(\|\(t, _\)\| \*t == subject\)| => verif_help_topic(subject)
+//@replace ~|content\.split_terminator\('\\n'\)\.collect::<Vec<_>>\(\)| => verif_split_lines(content)
+//@spec
+        ensures conn_same_but_stream(*final(conn_state), *old(conn_state)), r is Ok, // @prop C05
+            // an unknown subject is answered with exactly one 524
+            help_topic_of(match subject_opt { Some(x) => x@, None => "MAIN"@ }) is None ==> final(conn_state).stream.log() == old(conn_state).stream.log().push(fed(self.config.name@,
+                Reply::ErrHelpNotFound524 { client: str_of(client_name_spec(old(conn_state).user_state)), subject: str_of(match subject_opt { Some(x) => x@, None => "MAIN"@ }) })), // @prop C05
+//@open
+        broadcast use bridge;
+//@loop ~for line in lines\.iter\(\) iter=itl
+                invariant conn_same_but_stream(*conn_state, *old(conn_state)), i__n == itl.index@, itl.seq().len() == lines@.len(),
 //@end
 //@fn state/srv_query_cmds.rs MainState::process_info unit=simple props=C05 rules=R2
 //@spec
